@@ -271,3 +271,15 @@ Print Assumptions C10_corr_tab_implies_holds.
 Theorem C10_corr_tabz_implies_holds : forall c, corr_tabz c = true -> holds_tabz c = true.
 Proof. exact corr_tabz_holds. Qed.
 Print Assumptions C10_corr_tabz_implies_holds.
+
+(* call histories: each call of a history is judged on its own (current) block contents, whatever was computed,
+   returned or modified before; and the per-call theorems above make the property checker follow from the tie *)
+Theorem C10_hist_calls_independent : forall c1 c2,
+  corr_hist (c1 ++ c2) = corr_hist c1 && corr_hist c2 /\
+  holds_hist (c1 ++ c2) = holds_hist c1 && holds_hist c2.
+Proof. exact hist_calls_independent. Qed.
+Print Assumptions C10_hist_calls_independent.
+
+Theorem C10_corr_hist_implies_holds : forall c, corr_hist c = true -> holds_hist c = true.
+Proof. exact corr_hist_holds. Qed.
+Print Assumptions C10_corr_hist_implies_holds.
